@@ -1103,6 +1103,13 @@ func c11Discriminators(p *load.Program, r *core.Report) {
 			if !has(s, n) {
 				probs = append(probs, fmt.Sprintf("%s does not compare with %d (it compares with %v)", s, n, cmp[s]))
 			}
+			// and with nothing else: a second threshold in the same function (the length test of
+			// one value, the id test of another) must be the same boundary
+			for _, v := range cmp[s] {
+				if v != n && v != fm.nilv && v != fm.nilv-1 {
+					probs = append(probs, fmt.Sprintf("%s also compares with %d", s, v))
+				}
+			}
 		}
 		if fm.nilv >= 0 {
 			okNil := false
